@@ -99,6 +99,11 @@ def _elem1(name, native):
     def f(x, *a, out=None, **kw):
         if isinstance(x, Sym):
             return one(x)
+        if name in ("sqrt", "log") and NPX.symbolic_consts and isinstance(x, (int, float)) and not isinstance(x, bool):
+            # reals reading of constants such as np.sqrt(2), np.log(2): irrational values stay symbolic
+            c = _exact_const(name, x)
+            if c is not None:
+                return c
         arr = x if isinstance(x, rnp.ndarray) else rnp.asarray(x)
         if arr.dtype != object:
             return native(x, *a, **kw)
@@ -110,6 +115,29 @@ def _elem1(name, native):
 
     f.__name__ = name
     return f
+
+
+def _exact_const(name, x):
+    import fractions
+
+    try:
+        fr = fractions.Fraction(str(frac(x)))
+    except Exception:
+        return None
+    if name == "sqrt":
+        if fr < 0:
+            return None
+        n, d = fr.numerator, fr.denominator
+        if math.isqrt(n) ** 2 == n and math.isqrt(d) ** 2 == d:
+            return math.isqrt(n) / math.isqrt(d)
+        return Sym(theory.UF["sqrt"](frac(x)))
+    if name == "log":
+        if fr <= 0:
+            return None
+        if fr == 1:
+            return 0.0
+        return Sym(theory.UF["log"](frac(x)))
+    return None
 
 
 def _sym_isclose(x, y, rtol, atol):
@@ -149,6 +177,7 @@ class NP:
         self.random = _Random()
         self.ma = rnp.ma
         self.symbolic_pi = True
+        self.symbolic_consts = True
         for name in "sqrt exp log sin cos tan arcsin arccos arctan".split():
             setattr(self, name, _elem1(name, getattr(rnp, name)))
 
@@ -407,6 +436,9 @@ class NP:
     def abs(self, a, **kw):
         if isinstance(a, Sym):
             return abs(a)
+        if has_sym_fast(a):
+            kw.pop("dtype", None)
+            return rnp.abs(rnp.asarray(a, dtype=object), **kw)
         return rnp.abs(a, **kw)
 
     absolute = abs
@@ -617,6 +649,13 @@ def install(extra=None):
         if "sps" in d and isinstance(d["sps"], types.ModuleType):
             saved["sps"] = d["sps"]
             d["sps"] = SPS
+        # names imported directly from scipy.special (e.g. transform/array.py: erf, erfinv)
+        import scipy.special as _sp
+
+        for nm in _SPS._UN + _SPS._BIN + ["hyp2f1"]:
+            if nm in d and d[nm] is getattr(_sp, nm, None):
+                saved[nm] = d[nm]
+                d[nm] = getattr(SPS, nm)
         for b, repl in (("float", sym_float), ("int", sym_int)):
             saved[b] = d.get(b, None)
             d[b] = repl
